@@ -118,6 +118,8 @@ class _Thr(object):
         self.thread = None
         self.crash = None         # harness-level exception text
         self.in_op = False
+        self.opi = 0              # index of the operation it is in / about to start
+        self.pos = None           # code position + locals at the last line event
         self.notes = {}           # per-operation scratch (e.g. last time.time() value)
 
 
@@ -128,7 +130,7 @@ class Run(object):
         self.chooser = chooser                # f(step, enabled, prev, prev_state) -> tid
         self.max_steps = max_steps
         self.events = []
-        self.decisions = []                   # (enabled tuple, choice, prev, prev_state, #events so far)
+        self.decisions = []                   # (enabled tuple, choice, prev, prev_state, #events so far, state key)
         self.thr = {}
         self.order = []
         self.ctl = _Sem()
@@ -136,6 +138,10 @@ class Run(object):
         self.abort = False
         self.outcome = "ok"                   # ok / deadlock / steps / crash / nondet
         self.lines = 0
+        self.evhash = 0                       # rolling hash of the event history
+        self.namer = None                     # obj -> stable name (for state keys); None = repr of plain data only
+        self.state_digest = None              # () -> hashable digest of the shared object's state
+        self.keys = True                      # compute state keys (needed by explore's state cache)
 
     # ---------------------------------------------------------------- set-up
     def lock(self, name="lock"):
@@ -155,6 +161,7 @@ class Run(object):
         d = {"ev": ev}
         d.update(kw)
         self.events.append(d)
+        self.evhash = hash((self.evhash, repr(d)))
         return d
 
     def emit_th(self, ev, **kw):
@@ -190,8 +197,45 @@ class Run(object):
     def _local_trace(self, frame, event, arg):
         if event == "line":
             self.lines += 1
-            self._park(self.tls.t, LINE)
+            t = self.tls.t
+            if self.keys:
+                t.pos = self._frame_key(frame)
+            self._park(t, LINE)
         return self._local_trace
+
+    def _name(self, v):
+        if v is None or isinstance(v, (int, float, str, bytes, bool)):
+            return repr(v)
+        if isinstance(v, (tuple, list)):
+            return "[" + ",".join(self._name(x) for x in v) + "]"
+        if isinstance(v, bytearray):
+            return repr(bytes(v))
+        if self.namer is not None:
+            r = self.namer(v)
+            if r is not None:
+                return r
+        try:
+            return "i" + repr(int(v))            # gmpy integers
+        except Exception:
+            return "<" + type(v).__name__ + ">"
+
+    def _frame_key(self, frame):
+        """code position + local variables of the frames of the code under test"""
+        parts = []
+        f = frame
+        while f is not None and f.f_code.co_filename in self.files:
+            loc = f.f_locals
+            parts.append((f.f_code.co_name, f.f_lineno,
+                          tuple(sorted((k, self._name(v)) for k, v in loc.items() if k != "self"))))
+            f = f.f_back
+        return tuple(parts)
+
+    def _state_key(self):
+        th = tuple((tid, self.thr[tid].state, self.thr[tid].opi,
+                    self.thr[tid].pos if self.thr[tid].state in (LINE, BLOCKED) else None)
+                   for tid in self.order)
+        sd = self.state_digest() if self.state_digest is not None else None
+        return hash((self.evhash, th, sd, self.prev))
 
     def _body(self, t):
         self.tls.t = t
@@ -200,7 +244,8 @@ class Run(object):
             h = Handle(self, t)
             sys.settrace(self._global_trace)
             try:
-                for op in t.prog:
+                for i, op in enumerate(t.prog):
+                    t.opi = i
                     self._park(t, OPB)        # free switch point between operations
                     t.in_op = True
                     t.notes = {}
@@ -208,6 +253,7 @@ class Run(object):
                         op(h)
                     finally:
                         t.in_op = False
+                t.opi = len(t.prog)
             except SchedAbort:
                 pass
             except BaseException:
@@ -281,7 +327,8 @@ class Run(object):
             self.outcome = "nondet"
             self.abort = True
             return None
-        self.decisions.append((tuple(en), choice, prev, pstate, len(self.events)))
+        self.decisions.append((tuple(en), choice, prev, pstate, len(self.events),
+                               self._state_key() if self.keys else None))
         self.prev = choice
         return choice
 
@@ -374,6 +421,8 @@ def explore(scenario, bound, on_run, max_runs=None):
     work = [()]               # schedule prefixes still to run
     n = 0
     pruned = 0
+    cached = 0
+    visited = {}
     truncated = False
     while work:
         if max_runs is not None and n >= max_runs:
@@ -397,21 +446,36 @@ def explore(scenario, bound, on_run, max_runs=None):
                 continue
         used = 0
         pre = []
-        for (en, ch, prev, pstate, _ne) in dec:
+        for (en, ch, prev, pstate, _ne, _k) in dec:
             pre.append(used)
             if is_preemption(en, ch, prev, pstate):
                 used += 1
         chs = [d[1] for d in dec]
+        # State cache: a state = (event history so far, position and local variables of every
+        # thread inside the code under test, digest of the shared object, who ran last).  The
+        # continuation of a deterministic scenario from equal states is equal, so if the state
+        # at step k was expanded before with no more preemptions used, nothing below is new.
+        last = len(dec)
+        for k in range(len(prefix), len(dec)):
+            key = dec[k][5]
+            if key is None:
+                continue
+            seen = visited.get(key)
+            if seen is not None and seen <= pre[k]:
+                last = k
+                cached += 1
+                break
+            visited[key] = pre[k]
         # children: deviate at one position at or after the end of the prefix
-        for k in range(len(dec) - 1, len(prefix) - 1, -1):
-            en, ch, prev, pstate, _ne = dec[k]
+        for k in range(last - 1, len(prefix) - 1, -1):
+            en, ch, prev, pstate, _ne, _k = dec[k]
             for alt in en:
                 if alt == ch:
                     continue
                 u = pre[k] + (1 if is_preemption(en, alt, prev, pstate) else 0)
                 if u <= bound:
                     work.append(tuple(chs[:k]) + (alt,))
-    return {"runs": n, "truncated": truncated, "pruned": pruned}
+    return {"runs": n, "truncated": truncated, "pruned": pruned, "cached": cached, "states": len(visited)}
 
 
 def count_preemptions(run):
